@@ -48,7 +48,9 @@ def pcgrad(index, ctx):
     # read in canonical shape: helpers of the class/module expanded in place, walrus tests split, reduce(add, generator) as a loop
     from ..normalize import inline_helpers, split_walrus, unzip_gathers
 
-    fn = split_walrus(unzip_gathers(inline_helpers(fi, index)))  # = canonical(), with `zip(order, G[order])` walked as `for j in order` reading G[j]
+    from ..normalize import inline_local_objects
+
+    fn = split_walrus(unzip_gathers(inline_local_objects(fi, index, inline_helpers(fi, index))))  # (a small helper object of the module — `row = _ProjectedRow(i, G); row.project_off(j)` — is read as the code it stands for)  # = canonical(), with `zip(order, G[order])` walked as `for j in order` reading G[j]
     from ..normalize import unflatten_schedules
 
     fn = unflatten_schedules(fn)  # one loop over a precomputed list of (i, j) pairs is the loop nest the list enumerates
@@ -219,7 +221,7 @@ def pcgrad(index, ctx):
                 "the projected weight vector is not accumulated exactly once after the projection loop", _loc(fi, outer))
     rnd = [n for n in ast.walk(outer) if isinstance(n, ast.Call) and norm_text(n.func).endswith("randperm")]
     inside = [n for n in rnd if any(x is n for x in ast.walk(outer))]
-    per_row = len(inside) == 1 and not any(any(x is n for x in ast.walk(inner)) for n in rnd)
+    per_row = len(inside) == 1 and not any(any(x is n for b_ in inner.body + inner.orelse for x in ast.walk(b_)) for n in rnd)  # (the iterable of the inner loop is evaluated once per row)
     how = "randperm drawn once per outer iteration"
     if not rnd:
         # the orders drawn up front, one per row: `orders = [randperm(m) for _ in range(m)]`, and the outer loop walks that list
@@ -650,6 +652,10 @@ def mgda(index, ctx, A, by_class):
     if ast.dump(inl) != ast.dump(fi.node):
         fi = _copy.copy(fi)
         fi.node = inl
+    from ..normalize import flag_while_to_for
+
+    fi = _copy.copy(fi)
+    fi.node = flag_while_to_for(fi.node)  # a deep copy (the rule rewrites the loop body in place when it folds idioms: never on the shared tree); `while not done and next(it, None) is not None` read as the for loop it is
     loops_ = [n for n in ast.walk(fi.node) if isinstance(n, ast.For)]
     if len(loops_) != 1:
         ctx.undecided("R5", "MGDA: Frank-Wolfe loop", f"expected one loop, found {len(loops_)}", fi.loc())
@@ -680,6 +686,20 @@ def mgda(index, ctx, A, by_class):
         return
     u = ups[0]
     a = u.targets[0].id
+    # the vertex kept as an index: `alpha = (1 - g) * alpha; alpha[t] += g` is alpha <- (1 - g)·alpha + g·e_t
+    k_u = loop.body.index(u)
+    nxt_ = loop.body[k_u + 1] if k_u + 1 < len(loop.body) else None
+    if isinstance(nxt_, ast.AugAssign) and isinstance(nxt_.op, ast.Add) and isinstance(nxt_.target, ast.Subscript) and isinstance(nxt_.target.value, ast.Name) and nxt_.target.value.id == a \
+            and not isinstance(nxt_.target.slice, (ast.Slice, ast.Tuple)):
+        import copy as _cp2
+
+        synth = ast.Assign(targets=[ast.Name(id=a, ctx=ast.Store())],
+                           value=ast.BinOp(left=_cp2.deepcopy(u.value), op=ast.Add(), right=ast.BinOp(left=_cp2.deepcopy(nxt_.value), op=ast.Mult(), right=ast.Name(id="e__vertex", ctx=ast.Load()))))
+        ast.copy_location(synth, u)
+        ast.fix_missing_locations(synth)
+        loop.body[k_u] = synth
+        del loop.body[k_u + 1]
+        u = synth
     atoms: dict = {}
     p = expr_poly(u.value, atoms)
     others = [t for t, e in atoms.items() if isinstance(e, ast.Name) and t != a]
